@@ -21,7 +21,7 @@ META = {
     },
     "assumptions": ["A1: pattern masses m[p] >= 0, u[p] >= 0 (independent of each other)",
                     "tabulator (symx/tab.py) models the backend's wire layout; floats treated as reals"],
-    "outside": ["sizes beyond the bounds", "covariance measure", "numeric arrays beyond the repository's fixture shapes"],
+    "outside": ["sizes beyond the bounds", "covariance measure", "numeric arrays beyond the repository's fixture shapes (with and without a missing grouping category)"],
 }
 
 
@@ -122,6 +122,32 @@ def carried(eng, rows, cols, measure="mean", unavailable=((0, 1),), with_valid_c
     return obs
 
 
+def carried3(eng, table, rows, cols, measure="median", k=0):
+    """a carried numeric measure in a 3-D cube: partition k shows, per cell, the wire value of (table element k, row, column);
+    the selected plane stands for a multiple-response item in whichever of the three positions it sits"""
+    world = C.World(eng, [table, rows, cols], unweighted_concrete=3)
+    resp = world.response(weighted=True)
+    shape = ()
+    for v in world.vars:
+        shape += v.shape
+    vals = np.empty(shape, dtype=object)
+    for n, idx in enumerate(np.ndindex(shape)):
+        vals[idx] = eng.real("x%d" % n)
+    resp["result"]["measures"][measure] = {"data": SymList(vals.reshape(-1).tolist()), "n_missing": 0,
+                                           "metadata": {"derived": True, "references": {}, "type": {"class": "numeric", "integer": False}}}
+    parts = Cube(resp).partitions
+    prop = {"mean": "means", "sum": "sums", "stddev": "stddev", "median": "medians"}[measure]
+    tax, rax, cax = C.slice_axes(world)
+
+    def widx(ax, e):
+        kind, j = ax.elems[e]
+        return (j,) if kind == "cat" else (j, 0)
+
+    orc = [[vals[widx(tax, k) + widx(rax, i) + widx(cax, j)] for j in range(len(cax))] for i in range(len(rax))]
+    return [Obs("n_partitions", len(parts), len(tax), kind="same"),
+            Obs("p%d.%s" % (k, prop), getattr(parts[k], prop), C.to_array(orc))]
+
+
 def fixture_cells(eng, path):
     """a repository fixture whose dimensions are plain categorical / datetime / text / binned-numeric enums as configuration template:
     every weighted count (and carried mean / sum / stddev / median) of the response is symbolic; the head counts stay the fixture's.
@@ -186,13 +212,17 @@ def fixture_cells(eng, path):
     return obs
 
 
-def fixture_numarr(eng, path):
+def fixture_numarr(eng, path, no_missing=False):
     """numeric-array fixtures: the measure data has the sub-variable axis LAST in the payload and FIRST in the cube;
-    every mean / sum / stddev / median and every valid count is symbolic"""
+    every mean / sum / stddev / median and every valid count is symbolic. `no_missing`: the grouping variable has no
+    missing category at all (its "No Data" category is a valid one)"""
     import json
     raw = json.load(open(path))
     res = raw.get("value", raw)["result"]
     dims = res["dimensions"]
+    if no_missing:
+        for c in dims[0]["type"].get("categories") or dims[0]["type"].get("elements"):
+            c["missing"] = False
     # grouping dimension(s): none, one categorical, or a multiple-response pair (items, selected/other/missing)
     if len(dims) == 0:
         gshape, cells = (), [()]
@@ -319,7 +349,18 @@ def specs(tier):
                "num-arr-median-x-mr.json", "num-arr-multi-numeric-measures-grouped-by-cat.json", "num-arr-stddev-no-grouping.json", "num-arr-median-no-grouping.json"]
     for f in na + (na_more if tier == "thorough" else []):
         out.append(dict(module=M, fn="fixture_numarr", name="numeric array fixture " + f, params=dict(path=FX + "numeric_arrays/" + f), max_paths=1500))
+    for f in ["num-arr-means-grouped-by-cat.json", "num-arr-sum-grouped-by-cat.json"] + (["num-arr-means-grouped-by-date.json", "num-arr-median-grouped-by-cat.json"] if tier == "thorough" else []):
+        out.append(dict(module=M, fn="fixture_numarr", name="numeric array fixture " + f + " (grouping without a missing category)",
+                        params=dict(path=FX + "numeric_arrays/" + f, no_missing=True), max_paths=1500))
     add("0-D cube (nub)", "nub", dict())
+    # carried measures in 3-D cubes, a multiple-response dimension in each of the three positions
+    add("carried median 3d cat x mr x cat p1", "carried3", dict(table=V("cat", "t", 2, (0,)), rows=V("mr", "a", 2), cols=V("cat", "b", 2, (1,)), measure="median", k=1))
+    add("carried mean 3d cat x cat x mr p0", "carried3", dict(table=V("cat", "t", 2, (1,)), rows=V("cat", "a", 2, (1,)), cols=V("mr", "b", 2), measure="mean", k=0))
+    if tier == "thorough":
+        add("carried median 3d mr x cat x cat p1", "carried3", dict(table=V("mr", "t", 2), rows=V("cat", "a", 2, (1,)), cols=V("cat", "b", 2, (0,)), measure="median", k=1))
+        add("carried median 3d cat x cat x mr p1", "carried3", dict(table=V("cat", "t", 2, (1,)), rows=V("cat", "a", 2, (1,)), cols=V("mr", "b", 2), measure="median", k=1))
+        add("carried stddev 3d cat x mr x cat p0", "carried3", dict(table=V("cat", "t", 2, (0,)), rows=V("mr", "a", 2), cols=V("cat", "b", 2, (1,)), measure="stddev", k=0))
+        add("carried sum 3d cat x cat x cat p1", "carried3", dict(table=V("cat", "t", 2, (0,)), rows=V("cat", "a", 2, (2,)), cols=V("cat", "b", 2, (1,)), measure="sum", k=1))
     if tier == "thorough":
         for ma in [(0,), (1,), (3,), (0, 2), (1, 3)]:
             add("2d cat3%s x cat3" % (ma,), "two_d", dict(rows=V("cat", "a", 3, ma), cols=V("cat", "b", 3, (2,))), max_paths=300)
